@@ -17,6 +17,11 @@ CTransactionRef parse_tx(const char* p) {
     CDataStream ss(txData, SER_DISK, 0);
     CMutableTransaction mtx;
     UnserializeTransaction(mtx, ss);
+    if (!ss.empty()) {
+        // bytes left over after a complete transaction: not a transaction encoding
+        fprintf(stderr, "failed to parse tx: %zu bytes of trailing data after the transaction\n", ss.size());
+        return nullptr;
+    }
     CTransactionRef tx = MakeTransactionRef(CTransaction(mtx));
     return tx;
 }
